@@ -419,44 +419,70 @@ package rewriter
 //@ pred FullSlice(e ast.Expr) := isa(e, SliceExpr) && !isnil(e) && isnil(as(e, SliceExpr).Low)
 //@        && isnil(as(e, SliceExpr).High) && isnil(as(e, SliceExpr).Max) && !as(e, SliceExpr).Slice3
 
+//@ extern (*astutil.Cursor).Parent(c) (p)
+//@   ensures p == cursorParent(c)
+//@ pred Unlabelled(c *astutil.Cursor) := !isa(cursorParent(c), LabeledStmt)
+//@ -- what the lowering of the range statement rs leaves behind: the iterator definition `init` and the loop `loop`
+//@ pred Lowering(init ast.Node, loop ast.Node, rs *ast.RangeStmt) := IterLoop(loop, init)
+//@        && (IsStringT(typeOfExpr(rs.X)) ==> IterInit(init, cstNewStringIter, rs.X))
+//@        && (IsIntegerT(typeOfExpr(rs.X)) ==> IterInit(init, cstNewIntegerIter, rs.X))
+//@        && (IsKindT(typeOfExpr(rs.X), 2) ==> IterInit(init, cstNewSliceIter, rs.X))
+//@        && (IsKindT(typeOfExpr(rs.X), 3) ==> IterInit(init, cstNewMapIter, rs.X))
+//@        && (IsKindT(typeOfExpr(rs.X), 4) ==> IterInit(init, cstNewChanIter, rs.X))
+//@        && (IsKindT(typeOfExpr(rs.X), 1) ==> IterInitC(init, cstNewSliceIter) && FullSlice(as(as(init, AssignStmt).Rhs[0], CallExpr).Args[0]))
+//@ pred WfRange(rs *ast.RangeStmt) := rs != nil && rs.Body != nil && WfExpr(rs.Key) && WfExpr(rs.Value)
+
 //@ closure yieldRewriter.rewriteRanges#0 as @Apply.2 (c) (ok)
 //@   reveal wf-ast
 //@   cover[lowers-string] isa(cursorNode(c), RangeStmt) && IsStringT(typeOfExpr(as(cursorNode(c), RangeStmt).X)) && !(W == old(W))
 //@   cover[lowers-integer] isa(cursorNode(c), RangeStmt) && IsIntegerT(typeOfExpr(as(cursorNode(c), RangeStmt).X)) && !(W == old(W))
 //@   cover[lowers-array] isa(cursorNode(c), RangeStmt) && IsKindT(typeOfExpr(as(cursorNode(c), RangeStmt).X), 1) && !(W == old(W))
 //@   cover[lowers-map] isa(cursorNode(c), RangeStmt) && IsKindT(typeOfExpr(as(cursorNode(c), RangeStmt).X), 3) && !(W == old(W))
+//@   cover[lowers-labelled] isa(cursorNode(c), LabeledStmt) && !(W == old(W))
 //@   captured-inv r != nil
 //@   requires c != nil && YRCtx(r)
-//@   requires isa(cursorNode(c), RangeStmt) ==> !isnil(cursorNode(c)) && as(cursorNode(c), RangeStmt).Body != nil
-//@        && WfExpr(as(cursorNode(c), RangeStmt).Key) && WfExpr(as(cursorNode(c), RangeStmt).Value)
+//@   requires isa(cursorNode(c), RangeStmt) ==> !isnil(cursorNode(c)) && WfRange(as(cursorNode(c), RangeStmt))
+//@   requires isa(cursorNode(c), LabeledStmt) ==> !isnil(cursorNode(c)) && WfStmt(as(cursorNode(c), LabeledStmt).Stmt)
+//@        && (isa(as(cursorNode(c), LabeledStmt).Stmt, RangeStmt) ==> WfRange(as(as(cursorNode(c), LabeledStmt).Stmt, RangeStmt)))
 //@   -- range-over-func is not implemented: the compiler stops with a diagnostic
-//@   panics-only-if isa(cursorNode(c), RangeStmt) && isa(typeUnderlying(typeOfExpr(as(cursorNode(c), RangeStmt).X)), types.Signature)
+//@   panics-only-if (isa(cursorNode(c), RangeStmt) && isa(typeUnderlying(typeOfExpr(as(cursorNode(c), RangeStmt).X)), types.Signature))
+//@        || (isa(cursorNode(c), LabeledStmt) && isa(as(cursorNode(c), LabeledStmt).Stmt, RangeStmt)
+//@             && isa(typeUnderlying(typeOfExpr(as(as(cursorNode(c), LabeledStmt).Stmt, RangeStmt).X)), types.Signature))
 //@   ensures[descend] ok
-//@   ensures[only-ranges] !isa(cursorNode(c), RangeStmt) ==> W == old(W)
+//@   ensures[only-ranges] !isa(cursorNode(c), RangeStmt) && !isa(cursorNode(c), LabeledStmt) ==> W == old(W)
+//@   -- D32: a labelled range statement is not an element of a statement list (Cursor.InsertBefore would panic): it is lowered when
+//@   -- the label is visited, the iterator definition goes in front of the label, the label stays on the loop
+//@   ensures[labelled-later] isa(cursorNode(c), RangeStmt) && !Unlabelled(c) ==> W == old(W)
+//@   ensures[labelled-lowered] isa(cursorNode(c), LabeledStmt) && isa(old(as(cursorNode(c), LabeledStmt).Stmt), RangeStmt)
+//@        && RangeLowerable(typeOfExpr(as(old(as(cursorNode(c), LabeledStmt).Stmt), RangeStmt).X))
+//@        ==> insBase(W) == old(W) && Lowering(lastInserted(W), as(cursorNode(c), LabeledStmt).Stmt, as(old(as(cursorNode(c), LabeledStmt).Stmt), RangeStmt))
+//@   ensures[label-untouched] isa(cursorNode(c), LabeledStmt) && !(isa(old(as(cursorNode(c), LabeledStmt).Stmt), RangeStmt)
+//@        && RangeLowerable(typeOfExpr(as(old(as(cursorNode(c), LabeledStmt).Stmt), RangeStmt).X)))
+//@        ==> W == old(W) && as(cursorNode(c), LabeledStmt).Stmt == old(as(cursorNode(c), LabeledStmt).Stmt)
 //@   ensures[other-operands-untouched] isa(cursorNode(c), RangeStmt) && !RangeLowerable(typeOfExpr(as(cursorNode(c), RangeStmt).X)) ==> W == old(W)
 //@   -- every lowering: `it := seq.New<Kind>Iter(arg)` inserted before, the statement replaced by `for it.MoveNext() { … }`
-//@   ensures[lowered] isa(cursorNode(c), RangeStmt) && RangeLowerable(typeOfExpr(as(cursorNode(c), RangeStmt).X))
+//@   ensures[lowered] isa(cursorNode(c), RangeStmt) && Unlabelled(c) && RangeLowerable(typeOfExpr(as(cursorNode(c), RangeStmt).X))
 //@        ==> insBase(replBase(W)) == old(W) && IterLoop(lastReplaced(W), lastInserted(replBase(W)))
-//@   ensures[string] isa(cursorNode(c), RangeStmt) && IsStringT(typeOfExpr(as(cursorNode(c), RangeStmt).X))
+//@   ensures[string] isa(cursorNode(c), RangeStmt) && Unlabelled(c) && IsStringT(typeOfExpr(as(cursorNode(c), RangeStmt).X))
 //@        ==> IterInit(lastInserted(replBase(W)), cstNewStringIter, as(cursorNode(c), RangeStmt).X)
-//@   ensures[integer] isa(cursorNode(c), RangeStmt) && IsIntegerT(typeOfExpr(as(cursorNode(c), RangeStmt).X))
+//@   ensures[integer] isa(cursorNode(c), RangeStmt) && Unlabelled(c) && IsIntegerT(typeOfExpr(as(cursorNode(c), RangeStmt).X))
 //@        ==> IterInit(lastInserted(replBase(W)), cstNewIntegerIter, as(cursorNode(c), RangeStmt).X)
-//@   ensures[slice] isa(cursorNode(c), RangeStmt) && IsKindT(typeOfExpr(as(cursorNode(c), RangeStmt).X), 2)
+//@   ensures[slice] isa(cursorNode(c), RangeStmt) && Unlabelled(c) && IsKindT(typeOfExpr(as(cursorNode(c), RangeStmt).X), 2)
 //@        ==> IterInit(lastInserted(replBase(W)), cstNewSliceIter, as(cursorNode(c), RangeStmt).X)
-//@   ensures[map] isa(cursorNode(c), RangeStmt) && IsKindT(typeOfExpr(as(cursorNode(c), RangeStmt).X), 3)
+//@   ensures[map] isa(cursorNode(c), RangeStmt) && Unlabelled(c) && IsKindT(typeOfExpr(as(cursorNode(c), RangeStmt).X), 3)
 //@        ==> IterInit(lastInserted(replBase(W)), cstNewMapIter, as(cursorNode(c), RangeStmt).X)
-//@   ensures[chan] isa(cursorNode(c), RangeStmt) && IsKindT(typeOfExpr(as(cursorNode(c), RangeStmt).X), 4)
+//@   ensures[chan] isa(cursorNode(c), RangeStmt) && Unlabelled(c) && IsKindT(typeOfExpr(as(cursorNode(c), RangeStmt).X), 4)
 //@        ==> IterInit(lastInserted(replBase(W)), cstNewChanIter, as(cursorNode(c), RangeStmt).X)
 //@   -- arrays: the slice iterator over a full slice expression (the element type cannot be inferred from an array)
-//@   ensures[array] isa(cursorNode(c), RangeStmt) && IsKindT(typeOfExpr(as(cursorNode(c), RangeStmt).X), 1)
+//@   ensures[array] isa(cursorNode(c), RangeStmt) && Unlabelled(c) && IsKindT(typeOfExpr(as(cursorNode(c), RangeStmt).X), 1)
 //@        ==> IterInitC(lastInserted(replBase(W)), cstNewSliceIter) && FullSlice(as(as(lastInserted(replBase(W)), AssignStmt).Rhs[0], CallExpr).Args[0])
-//@   ensures[array-operand] isa(cursorNode(c), RangeStmt) && IsKindT(typeOfExpr(as(cursorNode(c), RangeStmt).X), 1) && Ignored(as(cursorNode(c), RangeStmt).Value)
+//@   ensures[array-operand] isa(cursorNode(c), RangeStmt) && Unlabelled(c) && IsKindT(typeOfExpr(as(cursorNode(c), RangeStmt).X), 1) && Ignored(as(cursorNode(c), RangeStmt).Value)
 //@        ==> as(as(as(lastInserted(replBase(W)), AssignStmt).Rhs[0], CallExpr).Args[0], SliceExpr).X == as(cursorNode(c), RangeStmt).X
 //@   -- D10: Go ranges over a *copy* of an array value when the element variable is used (spec, "For statements with range
 //@   -- clause"); slicing the operand itself aliases it, so writes to the array during the loop become visible.
-//@   ensures[array-copy] isa(cursorNode(c), RangeStmt) && IsKindT(typeOfExpr(as(cursorNode(c), RangeStmt).X), 1) && !Ignored(as(cursorNode(c), RangeStmt).Value)
+//@   ensures[array-copy] isa(cursorNode(c), RangeStmt) && Unlabelled(c) && IsKindT(typeOfExpr(as(cursorNode(c), RangeStmt).X), 1) && !Ignored(as(cursorNode(c), RangeStmt).Value)
 //@        ==> !(as(as(as(lastInserted(replBase(W)), AssignStmt).Rhs[0], CallExpr).Args[0], SliceExpr).X == as(cursorNode(c), RangeStmt).X)
-//@   modifies W, r.symCnt
+//@   modifies W, r.symCnt, fieldmap(ast.LabeledStmt.Stmt)
 
 // ---------------------------------------------------------------- rewrite.go: yield recognition, consumer range loops (C12, C06, C05)
 
@@ -905,6 +931,13 @@ package rewriter
 //@        && !isnil(as(lit.Body.List[0], ReturnStmt).Results[0])
 
 //@ closure optimizer.etaReduction#0 as matched (ctx, paramsFields, argsExprs) (ok)
+//@   -- go/parser: parameter fields and their names are non-nil nodes (WfAst)
+//@   requires forall j: Int :: 0 <= j && j < len(paramsFields) ==> paramsFields[j] != nil
+//@   requires forall j: Int :: forall k: Int :: 0 <= j && j < len(paramsFields) && 0 <= k && k < len(paramsFields[j].Names) ==> paramsFields[j].Names[k] != nil
+//@   loop #0 invariant forall j: Int :: 0 <= j && j < len(args) ==> args[j] != nil
+//@   loop #1 invariant (forall j: Int :: 0 <= j && j < len(args) ==> args[j] != nil) && (forall j: Int :: 0 <= j && j < len(params) ==> params[j] != nil)
+//@   loop #2 invariant (forall j: Int :: 0 <= j && j < len(args) ==> args[j] != nil) && (forall j: Int :: 0 <= j && j < len(params) ==> params[j] != nil)
+//@   loop #3 invariant (forall j: Int :: 0 <= j && j < len(args) ==> args[j] != nil) && (forall j: Int :: 0 <= j && j < len(params) ==> params[j] != nil) && len(args) == len(params)
 //@   loop #3 invariant forall j: Int :: 0 <= j && j < _idx ==> args[j].Name == params[j].Name && objectOf(args[j]) == objectOf(params[j])
 //@   ensures[local:positional] ok ==> len(args) == len(params) && (forall j: Int :: 0 <= j && j < len(args) ==> args[j].Name == params[j].Name && objectOf(args[j]) == objectOf(params[j]))
 
